@@ -41,6 +41,8 @@ pub const EDIT_CLASSES: &[&str] = &[
     "remove_event",
     "event_payload_type",
     "event_name",
+    "duplicate_emit",
+    "swap_emits",
     "make_type_reachable",
     "move_type_to_other_file",
     "delete_source_file",
@@ -445,6 +447,23 @@ pub fn gen_edit(r: &mut Rng, class: &str, m: &Model) -> Option<(Model, String)> 
                     desc = format!("rename event '{}' -> '{}'", old, new);
                 }
             }
+        }
+        "duplicate_emit" => {
+            // a second call site of an event that is already emitted (same payload)
+            let with: Vec<String> = m.functions().iter().filter(|c| !c.emits.is_empty()).map(|c| c.name.clone()).collect();
+            let n = pick(r, &with)?;
+            let c = m2.cmd_mut(&n)?;
+            let k = r.below(c.emits.len() as u64) as usize;
+            let e = c.emits[k].clone();
+            desc = format!("emit '{}' a second time in {}", e.event, n);
+            c.emits.push(e);
+        }
+        "swap_emits" => {
+            let with: Vec<String> = m.functions().iter().filter(|c| c.emits.len() >= 2 && c.emits[0] != c.emits[1]).map(|c| c.name.clone()).collect();
+            let n = pick(r, &with)?;
+            let c = m2.cmd_mut(&n)?;
+            c.emits.swap(0, 1);
+            desc = format!("swap the first two emit calls of {}", n);
         }
         "make_type_reachable" => {
             let n = pick(r, &cmd_names)?;
